@@ -1,6 +1,6 @@
-\* thorough replay space
+\* thorough replay space, part 1
 CONSTANTS
-  Space = "gen-thorough"
+  Space = "gen-thorough-1"
   Shapes <- ShapesOf
   FmtChoices <- Fmt01
   Q <- QAB
